@@ -142,6 +142,15 @@ def wall_clock_cases(chk, fens):
             add(k, t, mtg=1, only_own=True); k += 1
             add(k, t, inc=5000, ovh=min(50, t // 4)); k += 1
             add(k, t, mtg=1, want_black=True); k += 1
+    # positions whose very first iteration takes seconds (quiescence explosion): the clock must still be respected
+    heavy = [l.strip() for l in open(os.path.join(vlib.VERIF, "data", "explosive_heavy.txt")) if l.strip()]
+    fens_save = list(fens)
+    fens[:] = heavy
+    try:
+        for j in range(2 if chk.quick else len(heavy)):
+            add(j, 300 if j % 2 == 0 else 500)
+    finally:
+        fens[:] = fens_save
     return cases
 
 
